@@ -377,7 +377,7 @@ func (w *World) Apply(ev string) (enabled bool, err error) {
 		if !ok {
 			txs, ok = w.CContent(p[1], w.Ledger())
 		}
-		if !ok && (p[1] == "pv" || p[1] == "pm" || p[1] == "p2") && len(p) >= 4 {
+		if !ok && (p[1] == "pv" || p[1] == "pm" || p[1] == "p2" || p[1] == "px") && len(p) >= 4 {
 			txs, ok = w.ParamContent(p, w.Ledger())
 		}
 		if !ok {
@@ -473,6 +473,25 @@ func (w *World) ParamContent(p []string, l *Ledger) ([]*wire.MsgTx, bool) {
 			return nil, false
 		}
 		return []*wire.MsgTx{cb, spend([]*Coin{c}, out(a1, wl.Addrs[i1].Pk), out(a2, wl.Addrs[i2].Pk), out(c.Value-a1-a2-fee, w.SPk))}, true
+	case "px":
+		// x.px.0.0: ONE transaction whose outputs to wallet A come in the order: one large coin,
+		// 648 tiny ones, ten medium ones (the unspent index keeps the outputs of a transaction
+		// in output order): more coins than the input cap, the valuable ones at both ends
+		var outs []*wire.TxOut
+		pk := w.Wallets["A"].Addrs[0].Pk
+		outs = append(outs, out(4*Mass, pk))
+		for i := 0; i < 648; i++ {
+			outs = append(outs, out(10000, pk))
+		}
+		for i := 0; i < 10; i++ {
+			outs = append(outs, out(Mass/2, pk))
+		}
+		total := 4*Mass + 648*10000 + 5*Mass
+		if total >= c.Value-fee {
+			return nil, false
+		}
+		outs = append(outs, out(c.Value-total-fee, w.SPk))
+		return []*wire.MsgTx{cb, spend([]*Coin{c}, outs...)}, true
 	case "pm":
 		n, _ := strconv.Atoi(p[2])
 		amt, _ := strconv.ParseInt(p[3], 10, 64)
